@@ -430,7 +430,7 @@ class C14(Property):
         mixed = cm.number({"k": "d", "name": "r", "kids": [
             {"k": "d", "name": "x", "kids": [{"k": "l", "name": "a", "member": {"k": "s", "name": None},
                                               "kids": [{"k": "s", "name": None, "kids": []}]}]},
-            {"k": "d", "name": "y", "kids": []}]})
+            {"k": "d", "name": "y", "kids": [{"k": "s", "name": "b", "kids": []}]}]})
         nm_a = {"t": "name", "s": "a", "br": False, "sep": False, "escall": False}
         sl_all = {"t": "slice", "a": None, "b": None, "sep": False}
         sl_zero = {"t": "slice", "a": None, "b": None, "c": {"v": 0}, "sep": False}
